@@ -225,12 +225,14 @@ func (lockH) Execute(c *Case, res *Result) {
 					lctx, err = l.TryLock(ctx)
 					if err != nil {
 						res.Probes["trylock_refused"]++
-						if d := time.Since(t0); d > 0 && cfg.Backend == "etcd" {
+						if d := time.Since(t0); d > 0 {
 							viol("C18", "trylock-waited", cfg.Backend, fmt.Sprintf("op#%d: try-lock by contender %d failed only after waiting %v of virtual time", i, who, d))
 						}
-						_ = heldByOther
 						_ = l.Unlock(ctx)
 						continue
+					}
+					if d := time.Since(t0); d > 0 && heldByOther {
+						viol("C18", "trylock-waited", cfg.Backend, fmt.Sprintf("op#%d: try-lock by contender %d on a held lock waited %v of virtual time and then acquired it", i, who, d))
 					}
 				} else {
 					lctx, err = l.Lock(ctx)
